@@ -173,6 +173,168 @@ func genAnalysis() (string, string) {
 			refuse("analysis: %s is no longer a single `return kernel(enc, mbX, mbY, scratch...)`", n)
 		}
 	}
+	// ---- first access of every scratch parameter of the two kernels: "write" when the first
+	// statement (in program order, descending into loops / branches / package-local callees)
+	// that touches the parameter only stores into it; "read" otherwise.
+	knownWriters := map[string]int{"FTransformDirect": 2} // dsp functions: index of the output argument
+	var firstAccess func(fd *ast.FuncDecl, param string, depth int) string
+	rootOf := func(e ast.Expr) string {
+		for {
+			switch t := e.(type) {
+			case *ast.IndexExpr:
+				e = t.X
+				continue
+			case *ast.SliceExpr:
+				e = t.X
+				continue
+			case *ast.UnaryExpr:
+				e = t.X
+				continue
+			case *ast.StarExpr:
+				e = t.X
+				continue
+			case *ast.ParenExpr:
+				e = t.X
+				continue
+			case *ast.Ident:
+				return t.Name
+			}
+			return ""
+		}
+	}
+	mentions := func(n ast.Node, param string) bool {
+		found := false
+		ast.Inspect(n, func(x ast.Node) bool {
+			if id, ok := x.(*ast.Ident); ok && id.Name == param {
+				found = true
+			}
+			return !found
+		})
+		return found
+	}
+	var stmtAccess func(st ast.Stmt, param string, depth int) string // "", "write", "read"
+	stmtAccess = func(st ast.Stmt, param string, depth int) string {
+		if st == nil || !mentions(st, param) {
+			return ""
+		}
+		switch v := st.(type) {
+		case *ast.BlockStmt:
+			for _, s2 := range v.List {
+				if a := stmtAccess(s2, param, depth); a != "" {
+					return a
+				}
+			}
+			return ""
+		case *ast.ForStmt:
+			if (v.Init != nil && mentions(v.Init, param)) || (v.Cond != nil && mentions(v.Cond, param)) {
+				return "read"
+			}
+			return stmtAccess(v.Body, param, depth)
+		case *ast.RangeStmt:
+			if mentions(v.X, param) {
+				return "read"
+			}
+			return stmtAccess(v.Body, param, depth)
+		case *ast.IfStmt:
+			if mentions(v.Cond, param) {
+				return "read"
+			}
+			if a := stmtAccess(v.Body, param, depth); a != "" {
+				return a
+			}
+			if v.Else != nil {
+				return stmtAccess(v.Else, param, depth)
+			}
+			return ""
+		case *ast.SwitchStmt:
+			if (v.Init != nil && mentions(v.Init, param)) || (v.Tag != nil && mentions(v.Tag, param)) {
+				return "read"
+			}
+			// alternatives: a write only if every clause that touches the parameter starts with a write
+			res := ""
+			for _, cl := range v.Body.List {
+				cc, ok := cl.(*ast.CaseClause)
+				if !ok {
+					return "read"
+				}
+				for _, e := range cc.List {
+					if mentions(e, param) {
+						return "read"
+					}
+				}
+				for _, s2 := range cc.Body {
+					if a := stmtAccess(s2, param, depth); a != "" {
+						if a == "read" {
+							return "read"
+						}
+						res = "write"
+						break
+					}
+				}
+			}
+			return res
+		case *ast.AssignStmt:
+			for _, r := range v.Rhs {
+				if ce, ok := r.(*ast.CallExpr); ok {
+					if a := callAccess(ce, param, depth, funcs, knownWriters, &firstAccess, rootOf, mentions); a != "" {
+						return a
+					}
+					continue
+				}
+				if mentions(r, param) {
+					return "read"
+				}
+			}
+			for _, l := range v.Lhs {
+				if rootOf(l) == param {
+					if ie, ok := l.(*ast.IndexExpr); ok && mentions(ie.Index, param) {
+						return "read"
+					}
+					if v.Tok != token.ASSIGN && v.Tok != token.DEFINE {
+						return "read" // op-assignment reads the old value
+					}
+					return "write"
+				}
+				if mentions(l, param) {
+					return "read"
+				}
+			}
+			return ""
+		case *ast.ExprStmt:
+			if ce, ok := v.X.(*ast.CallExpr); ok {
+				return callAccess(ce, param, depth, funcs, knownWriters, &firstAccess, rootOf, mentions)
+			}
+			return "read"
+		}
+		return "read"
+	}
+	firstAccess = func(fd *ast.FuncDecl, param string, depth int) string {
+		if depth > 4 {
+			return "read"
+		}
+		for _, st := range fd.Body.List {
+			if a := stmtAccess(st, param, depth); a != "" {
+				return a
+			}
+		}
+		return "unused"
+	}
+	type fa struct{ kernel, param, access string }
+	var fas []fa
+	for _, k := range []struct {
+		name   string
+		params []string
+	}{{"computeMBAlphaDCTWith", []string{"src", "pred", "tmpCoeffs"}}, {"computeMBUVAlphaDCTWith", []string{"srcU", "srcV", "predU", "predV", "tmpCoeffs"}}} {
+		fd := funcs[k.name]
+		if fd == nil {
+			refuse("analysis: kernel %s not found", k.name)
+			continue
+		}
+		for _, prm := range k.params {
+			fas = append(fas, fa{k.name, prm, firstAccess(fd, prm, 0)})
+		}
+	}
+
 	var out bytes.Buffer
 	out.WriteString("(* GENERATED by tools/gosrc2v (analysis.go) from /repo's current source. Do not edit. *)\nFrom Coq Require Import List String.\nImport ListNotations.\nOpen Scope string_scope.\n\n")
 	fmt.Fprintf(&out, "(* per-macroblock loop body of computeAlphasSerial, normalised *)\nDefinition serial_body : string :=\n%s.\n\n", concCoqString(normalise(serialBody)))
@@ -184,6 +346,60 @@ func genAnalysis() (string, string) {
 		}
 		fmt.Fprintf(&out, "(%s, %s, %s, %s)", concCoqString(w.name), concCoqString(w.kernel), concCoqString(w.lead), concCoqString(w.scratchRoots))
 	}
+	out.WriteString("].\n\n(* kernel, scratch parameter, kind of the first access in program order *)\nDefinition kernel_scratch_first_access : list (string * string * string) :=\n  [")
+	for i, a := range fas {
+		if i > 0 {
+			out.WriteString(";\n   ")
+		}
+		fmt.Fprintf(&out, "(%s, %s, %s)", concCoqString(a.kernel), concCoqString(a.param), concCoqString(a.access))
+	}
 	out.WriteString("].\n")
 	return "Analysis.v", out.String()
+}
+
+// callAccess classifies how a call touches param: through a known output argument of a dsp
+// function, or through the corresponding parameter of a package-local callee (recursively).
+func callAccess(ce *ast.CallExpr, param string, depth int, funcs map[string]*ast.FuncDecl, knownWriters map[string]int,
+	firstAccess *func(fd *ast.FuncDecl, param string, depth int) string,
+	rootOf func(ast.Expr) string, mentions func(ast.Node, string) bool) string {
+	name := ""
+	switch f := ce.Fun.(type) {
+	case *ast.Ident:
+		name = f.Name
+	case *ast.SelectorExpr:
+		name = f.Sel.Name
+	}
+	res := ""
+	for i, a := range ce.Args {
+		if !mentions(a, param) {
+			continue
+		}
+		this := "read"
+		if rootOf(a) == param {
+			if w, ok := knownWriters[name]; ok && w == i {
+				this = "write"
+			} else if fd := funcs[name]; fd != nil {
+				// name of the callee's i-th parameter
+				k := 0
+				for _, fl := range fd.Type.Params.List {
+					for _, n := range fl.Names {
+						if k == i {
+							this = (*firstAccess)(fd, n.Name, depth+1)
+							if this == "unused" {
+								this = ""
+							}
+						}
+						k++
+					}
+				}
+			}
+		}
+		if this == "read" {
+			return "read"
+		}
+		if this == "write" {
+			res = "write"
+		}
+	}
+	return res
 }
